@@ -175,7 +175,7 @@ impl World for Hs {
         }
         lives.dedup();
         let mut v = vec![];
-        let news: &[Who] = if self.thorough { &[Who::A, Who::B, Who::O] } else { &[Who::A, Who::B] };
+        let news: &[Who] = &[Who::A, Who::B, Who::O]; // incl. an offer of the holder to itself
         for new in news {
             for l in &lives {
                 for by in SIGNERS {
